@@ -1942,6 +1942,18 @@ def _ext_count(I, args, kwargs, st, node):
     return [(Unknown("count"), st)]
 
 
+def _ext_methodcaller(I, args, kwargs, st, node):
+    """operator.methodcaller(name, *a, **kw)(obj) == obj.name(*a, **kw)   (constant arguments only)."""
+    from .absval import LambdaV
+
+    if args and isinstance(args[0], str) and args[0].isidentifier() and all(is_concrete(a) and not isinstance(a, EnumV) for a in list(args[1:]) + list(kwargs.values())):
+        extra = ", ".join([repr(a) for a in args[1:]] + [f"{k}={v!r}" for k, v in kwargs.items()])
+        lam = ast.parse(f"lambda __o: __o.{args[0]}({extra})", mode="eval").body
+        return [(LambdaV(lam, {}, None), st)]
+    st.note("operator.methodcaller with abstract arguments")
+    return [(Unknown("methodcaller"), st)]
+
+
 def _ext_newtype(I, args, kwargs, st, node):
     """typing.NewType(name, tp) is the identity function at run time."""
     from .absval import LambdaV
@@ -2138,6 +2150,7 @@ EXT_CALLS = {
     "ext:re.findall": _ext_re_findall,
     "ext:operator.attrgetter": _ext_attrgetter,
     "ext:operator.not_": _ext_not,
+    "ext:operator.methodcaller": _ext_methodcaller,
     "ext:typing.NewType": _ext_newtype,
     "ext:typing_extensions.NewType": _ext_newtype,
     "ext:itertools.count": _ext_count,
